@@ -511,6 +511,31 @@ func reflectGuardedFlow(fn *ssa.Function, s reflectSite, subjects []ssa.Value, v
 					}
 				}
 			case *ssa.Call:
+				// isListKind(v.Kind()): a helper of the package that is a pure predicate over a kind
+				if g := x.Call.StaticCallee(); g != nil && len(x.Call.Args) == 1 {
+					if sub, ok := kindCallOn(x.Call.Args[0]); ok {
+						match := false
+						for _, sj := range subjects {
+							if sameReflect(sub, sj) {
+								match = true
+							}
+							if tv, ok := typeOfValue(unspill(sub)); ok && sameReflect(tv, sj) {
+								match = true
+							}
+						}
+						if match {
+							if set, ok := kindPredicateSet(g); ok {
+								sel := map[int64]bool{}
+								for k := int64(0); k < int64(len(kindNames)); k++ {
+									if set[k] == onTrue {
+										sel[k] = true
+									}
+								}
+								return len(sel) > 0 && subset(sel, s.legal)
+							}
+						}
+					}
+				}
 				// x.IsNil() false ⇒ x.Elem() is valid
 				if f := x.Call.StaticCallee(); f != nil && f.String() == "(reflect.Value).IsNil" && elemOf != nil && len(s.legal) == len(allValidKinds) {
 					if sameReflect(x.Call.Args[0], elemOf) {
@@ -796,19 +821,59 @@ func containerTypeOrigin(v ssa.Value, depth int) ssa.Value {
 func assignableGuard(fn *ssa.Function, in ssa.Instruction) bool {
 	fl := &boolFlow{fn: fn, entry: false}
 	fl.edge = func(b *ssa.BasicBlock, i int) bool {
-		v, trueIdx, ok := ifCond(b)
-		if !ok || i != trueIdx {
-			return false
-		}
-		c, ok := v.(*ssa.Call)
-		if !ok || !c.Call.IsInvoke() {
-			return false
-		}
-		n := c.Call.Method.Name()
-		return (n == "AssignableTo" || n == "ConvertibleTo") && isReflectType(c.Call.Value.Type())
+		return anyEdgeFact(b, i, func(v ssa.Value, trueIdx int) bool {
+			if i != trueIdx {
+				return false
+			}
+			return isAssignableTest(v, 0)
+		})
 	}
 	fl.solve()
 	return fl.at(in)
+}
+
+// isAssignableTest: the value is true only if an AssignableTo/ConvertibleTo test succeeded: the
+// call itself, or a bool helper of the package whose every true result implies such a call.
+func isAssignableTest(v ssa.Value, depth int) bool {
+	c, ok := v.(*ssa.Call)
+	if !ok {
+		return false
+	}
+	if c.Call.IsInvoke() {
+		n := c.Call.Method.Name()
+		return (n == "AssignableTo" || n == "ConvertibleTo") && isReflectType(c.Call.Value.Type())
+	}
+	g := c.Call.StaticCallee()
+	if g == nil || depth > 2 || g.Pkg == nil || g.Pkg.Pkg.Path() != twigPath || len(g.Blocks) == 0 {
+		return false
+	}
+	if g.Signature.Results().Len() != 1 || !types.Identical(g.Signature.Results().At(0).Type().Underlying(), types.Typ[types.Bool]) {
+		return false
+	}
+	all, n := true, 0
+	instrsOf(g, func(in ssa.Instruction) {
+		ret, isRet := in.(*ssa.Return)
+		if !isRet {
+			return
+		}
+		n++
+		res := retResults(ret)[0]
+		if isConstBool(res, false) {
+			return
+		}
+		var facts []condFact
+		expandCond(res, true, &facts, 0)
+		implied := false
+		for _, f := range facts {
+			if f.truth && isAssignableTest(f.v, depth+1) {
+				implied = true
+			}
+		}
+		if !implied && !assignableGuard(g, in) {
+			all = false
+		}
+	})
+	return all && n > 0
 }
 
 // guardedInParent: the receiver is a variable captured by a closure; the precondition is
@@ -1019,4 +1084,123 @@ func containerTypeOriginL(v ssa.Value, depth int, seen map[ssa.Value]bool) (ssa.
 		return o, lvl
 	}
 	return v, ""
+}
+
+// kindPredicateSet: for a function func(k reflect.Kind) bool without calls, the set of kinds for
+// which it returns true, computed by interpreting its SSA once per kind.
+var kindPredMemo = map[*ssa.Function]map[int64]bool{}
+
+func kindPredicateSet(g *ssa.Function) (map[int64]bool, bool) {
+	if m, ok := kindPredMemo[g]; ok {
+		return m, m != nil
+	}
+	kindPredMemo[g] = nil
+	if g.Pkg == nil || g.Pkg.Pkg.Path() != twigPath || len(g.Blocks) == 0 || len(g.Params) != 1 || !isNamed(g.Params[0].Type(), "reflect", "Kind") {
+		return nil, false
+	}
+	if g.Signature.Results().Len() != 1 || !types.Identical(g.Signature.Results().At(0).Type().Underlying(), types.Typ[types.Bool]) {
+		return nil, false
+	}
+	out := map[int64]bool{}
+	for k := int64(0); k < int64(len(kindNames)); k++ {
+		v, ok := interpretKindPredicate(g, k)
+		if !ok {
+			return nil, false
+		}
+		out[k] = v
+	}
+	kindPredMemo[g] = out
+	return out, true
+}
+
+func interpretKindPredicate(g *ssa.Function, k int64) (bool, bool) {
+	vals := map[ssa.Value]constant.Value{g.Params[0]: constant.MakeInt64(k)}
+	get := func(v ssa.Value) (constant.Value, bool) {
+		if c, ok := v.(*ssa.Const); ok {
+			return c.Value, c.Value != nil
+		}
+		cv, ok := vals[v]
+		return cv, ok
+	}
+	blk := g.Blocks[0]
+	var prev *ssa.BasicBlock
+	for steps := 0; steps < 500; steps++ {
+		next := (*ssa.BasicBlock)(nil)
+		for _, in := range blk.Instrs {
+			switch x := in.(type) {
+			case *ssa.DebugRef:
+			case *ssa.Phi:
+				found := false
+				for i, p := range blk.Preds {
+					if p == prev {
+						if cv, ok := get(x.Edges[i]); ok {
+							vals[x] = cv
+							found = true
+						}
+					}
+				}
+				if !found {
+					return false, false
+				}
+			case *ssa.BinOp:
+				a, ok1 := get(x.X)
+				b, ok2 := get(x.Y)
+				if !ok1 || !ok2 {
+					return false, false
+				}
+				switch x.Op {
+				case token.EQL, token.NEQ, token.LSS, token.LEQ, token.GTR, token.GEQ:
+					vals[x] = constant.MakeBool(constant.Compare(a, x.Op, b))
+				default:
+					return false, false
+				}
+			case *ssa.UnOp:
+				a, ok := get(x.X)
+				if !ok || x.Op != token.NOT {
+					return false, false
+				}
+				vals[x] = constant.MakeBool(!constant.BoolVal(a))
+			case *ssa.Convert:
+				a, ok := get(x.X)
+				if !ok {
+					return false, false
+				}
+				vals[x] = a
+			case *ssa.ChangeType:
+				a, ok := get(x.X)
+				if !ok {
+					return false, false
+				}
+				vals[x] = a
+			case *ssa.If:
+				c, ok := get(x.Cond)
+				if !ok {
+					return false, false
+				}
+				if constant.BoolVal(c) {
+					next = blk.Succs[0]
+				} else {
+					next = blk.Succs[1]
+				}
+			case *ssa.Jump:
+				next = blk.Succs[0]
+			case *ssa.Return:
+				if len(x.Results) != 1 {
+					return false, false
+				}
+				c, ok := get(x.Results[0])
+				if !ok || c.Kind() != constant.Bool {
+					return false, false
+				}
+				return constant.BoolVal(c), true
+			default:
+				return false, false
+			}
+		}
+		if next == nil {
+			return false, false
+		}
+		prev, blk = blk, next
+	}
+	return false, false
 }
